@@ -10,6 +10,8 @@
 import Gzx.Gen.K03w
 import Gzx.KernelGuard
 import Gzx.Proofs.K10
+import Gzx.Obligations.K10
+import Gzx.Proofs.CheckDigit
 import Gzx.Proofs.GoMTie
 import Gzx.Model.OneD
 namespace Gzx.Obligations.K03w
@@ -211,5 +213,262 @@ theorem k_checkNumeric_eq (s : List Nat) :
   cases allDigits s <;> rfl
 
 example : Gen.K03w.checkNumeric (bytes [49, 50, 0xC3, 0xA9]) = .ok true := by decide
+
+/-! ## shared pieces of the UPC/EAN encoders -/
+
+when_kernel Gzx.Gen.K03w.getStandardUPCEANChecksum in
+theorem k_getStandardUPCEANChecksum_eq (s : List Nat) (hs : ∀ b ∈ s, b < 256) :
+    Gen.K03w.getStandardUPCEANChecksum (bytes s) =
+      .ok (match eanChecksumB s with
+           | .ok v => (v, false)
+           | .error _ => (0, true)) :=
+  Obligations.K10.k_getStandardUPCEANChecksum_eq s hs
+
+when_kernel Gzx.Gen.K03w.checkStandardUPCEANChecksum in
+theorem k_checkStandardUPCEANChecksum_eq (s : List Nat) (hs : ∀ b ∈ s, b < 256) :
+    Gen.K03w.checkStandardUPCEANChecksum (bytes s) =
+      .ok (match checkStandardB s with
+           | .ok b => (b, false)
+           | .error _ => (false, true)) :=
+  Obligations.K10.k_checkStandardUPCEANChecksum_eq s hs
+
+theorem eanChecksumB_range (s : List Nat) (c : Int) (h : eanChecksumB s = .ok c) : -10 < c ∧ c < 10 := by
+  unfold eanChecksumB at h
+  split at h
+  · injection h with h; subst h
+    unfold eanCheckDigit goCheckOf
+    split <;> omega
+  · cases h
+
+theorem itoa_small (c : Int) (h1 : -10 < c) (h2 : c < 10) : itoa c = bytes (itoaSmall c) := by
+  have : c = -9 ∨ c = -8 ∨ c = -7 ∨ c = -6 ∨ c = -5 ∨ c = -4 ∨ c = -3 ∨ c = -2 ∨ c = -1 ∨ c = 0 ∨ c = 1 ∨ c = 2 ∨
+      c = 3 ∨ c = 4 ∨ c = 5 ∨ c = 6 ∨ c = 7 ∨ c = 8 ∨ c = 9 := by omega
+  rcases this with h | h | h | h | h | h | h | h | h | h | h | h | h | h | h | h | h | h | h <;> subst h <;> decide
+
+theorem bytes_append (a b : List Nat) : bytes (a ++ b) = bytes a ++ bytes b := by simp [bytes]
+
+/-- row `i` of a table of run-width patterns (the empty pattern outside the table) -/
+def rowAt (L : List (List Nat)) (i : Nat) : List Nat := L[i]?.getD []
+
+/-- a model table as the Go `[][]int` -/
+def rows (L : List (List Nat)) : List (List Int) := L.map (·.map Int.ofNat)
+
+theorem idxRow_rows (L : List (List Nat)) (i : Nat) (e : Int) (he : e = (i : Int)) (h : i < L.length) :
+    idxRow (rows L) e = .ok ((rowAt L i).map Int.ofNat) := by
+  subst he
+  unfold idxRow rows rowAt
+  have h0 : ¬ ((i : Int) < 0) := by omega
+  simp [h0, h]
+
+theorem nth_rowAt (L : List (List Nat)) (i : Nat) (h : i < L.length) : nth L i = .ok (rowAt L i) := by
+  unfold nth rowAt; simp [h]
+
+theorem appendPattern_length (ws : List Nat) (c : Bool) : (OneD.appendPattern ws c).length = OneD.sumL ws := by
+  induction ws generalizing c with
+  | nil => rfl
+  | cons w ws ih => simp [OneD.appendPattern, OneD.sumL, ih]
+
+/-- total width and modules of the patterns `pats a, …, pats (a+k-1)` drawn one after the other in colour `c` -/
+def segW (pats : Nat → List Nat) (a k : Nat) : Nat := ((List.range' a k).map (fun i => OneD.sumL (pats i))).sum
+def segM (pats : Nat → List Nat) (c : Bool) (a k : Nat) : List Bool :=
+  ((List.range' a k).map (fun i => OneD.appendPattern (pats i) c)).flatten
+
+/-- a counted loop each of whose iterations draws one pattern behind what is drawn already -/
+theorem draw_loop (body : Int → (List Int × Int) → Ctl (List Int × Int) ρ) (pats : Nat → List Nat) (c : Bool) :
+    ∀ (k a : Nat) (done rest : List Int),
+      (∀ i, a ≤ i → i < a + k → ∀ done rest, body (i : Int) (done ++ rest, (done.length : Int)) =
+        drawn done rest (OneD.sumL (pats i)) (b01 (OneD.appendPattern (pats i) c))) →
+      loop body 1 k (a : Int) (done ++ rest, (done.length : Int)) =
+        drawn done rest (segW pats a k) (b01 (segM pats c a k)) := by
+  intro k
+  induction k with
+  | zero => intro a done rest _; simp [loop, drawn, segW, segM, b01]
+  | succ k ih =>
+    intro a done rest hb
+    rw [loop_succ, hb a (Nat.le_refl a) (by omega)]
+    have hW : segW pats a (k + 1) = OneD.sumL (pats a) + segW pats (a + 1) k := by
+      simp [segW, List.range'_succ]
+    have hM : segM pats c a (k + 1) = OneD.appendPattern (pats a) c ++ segM pats c (a + 1) k := by
+      simp [segM, List.range'_succ]
+    unfold drawn
+    by_cases h1 : OneD.sumL (pats a) ≤ rest.length
+    · simp only [h1, if_true]
+      have e1 : done ++ b01 (OneD.appendPattern (pats a) c) ++ rest.drop (OneD.sumL (pats a)) =
+          (done ++ b01 (OneD.appendPattern (pats a) c)) ++ rest.drop (OneD.sumL (pats a)) := rfl
+      have e2 : ((done.length + OneD.sumL (pats a) : Nat) : Int) =
+          (((done ++ b01 (OneD.appendPattern (pats a) c)).length : Nat) : Int) := by
+        simp [b01_length, appendPattern_length]
+      have e3 : (a : Int) + 1 = ((a + 1 : Nat) : Int) := by omega
+      rw [e1, e2, e3, ih (a + 1) _ _ (fun i h1 h2 => hb i (by omega) (by omega))]
+      unfold drawn
+      simp only [List.length_drop, hW, hM, b01_append, List.length_append, b01_length, appendPattern_length, List.drop_drop]
+      by_cases h2 : segW pats (a + 1) k ≤ rest.length - OneD.sumL (pats a)
+      · have h3 : OneD.sumL (pats a) + segW pats (a + 1) k ≤ rest.length := by omega
+        have ea : done.length + OneD.sumL (pats a) + segW pats (a + 1) k =
+            done.length + (OneD.sumL (pats a) + segW pats (a + 1) k) := by omega
+        have h4 : segW pats (a + 1) k + OneD.sumL (pats a) ≤ rest.length := by omega
+        simp only [h2, h4, if_true, List.append_assoc, ea, Nat.add_comm (OneD.sumL (pats a))]
+      · have h3 : ¬ OneD.sumL (pats a) + segW pats (a + 1) k ≤ rest.length := by omega
+        simp only [h2, h3, if_false]
+    · have h3 : ¬ segW pats a (k + 1) ≤ rest.length := by omega
+      simp only [h1, h3, if_false]
+
+/-- `onedWriter_appendPattern` in the position it has inside an encoder: behind `done`, any position expression -/
+theorem ap_at (done rest : List Int) (p : Int) (pat : List Nat) (c : Bool) (hp : p = (done.length : Int)) :
+    Gen.K03w.appendPattern (done ++ rest) p (pat.map Int.ofNat) c =
+      if OneD.sumL pat ≤ rest.length then
+        .ok (((OneD.sumL pat : Nat) : Int), done ++ b01 (OneD.appendPattern pat c) ++ rest.drop (OneD.sumL pat))
+      else .error oob := by
+  subst hp; exact k_appendPattern_eq done rest pat c
+
+theorem digit_of_all {full : List Nat} (h : allDigits full = true) (i : Nat) (hi : i < full.length) :
+    48 ≤ full[i] ∧ full[i] ≤ 57 := by
+  have := (List.all_eq_true.mp h) full[i] (List.getElem_mem hi)
+  simpa [isDigitByte] using this
+
+theorem lt256_of_all {full : List Nat} (h : allDigits full = true) : ∀ b ∈ full, b < 256 := by
+  intro b hb
+  have := (List.all_eq_true.mp h) b hb
+  simp [isDigitByte] at this; omega
+
+theorem wrap8_digit (v : Nat) (h1 : 48 ≤ v) (h2 : v ≤ 57) : wrap 8 ((v : Int) - 48) = ((v - 48 : Nat) : Int) := by
+  have e8 : ((2 : Int) ^ 8) = 256 := by decide
+  simp only [wrap, e8]; omega
+
+/-! ## tables of the UPC/EAN writers: the regenerated literals are the model's reference tables -/
+
+when_kernel Gzx.Gen.K03w.ean8Encode in
+theorem tbl_L : Gen.K03w.tbl2_UPCEANReader_L_PATTERNS = rows refTables.lPatterns := by decide
+when_kernel Gzx.Gen.K03w.ean8Encode in
+theorem tbl_SE : Gen.K03w.tbl_UPCEANReader_START_END_PATTERN = refTables.startEnd.map Int.ofNat := by decide
+when_kernel Gzx.Gen.K03w.ean8Encode in
+theorem tbl_MID : Gen.K03w.tbl_UPCEANReader_MIDDLE_PATTERN = refTables.middle.map Int.ofNat := by decide
+
+/-- the L pattern of the digit at position `i` of a digit string -/
+def lPat (full : List Nat) (i : Nat) : List Nat := rowAt refTables.lPatterns ((full[i]?.getD 48) - 48)
+
+theorem lRow_sum : ∀ i, i < 10 → OneD.sumL (rowAt refTables.lPatterns i) = 7 := by decide
+
+theorem lPat_sum (full : List Nat) (h : allDigits full = true) (i : Nat) (hi : i < full.length) :
+    OneD.sumL (lPat full i) = 7 := by
+  obtain ⟨h1, h2⟩ := digit_of_all h i hi
+  unfold lPat
+  rw [List.getElem?_eq_getElem hi]
+  exact lRow_sum _ (by simp only [Option.getD_some]; omega)
+
+/-- one iteration `digit := contents[i]-'0'; pos += appendPattern(result, pos, L_PATTERNS[digit], c)` -/
+def IsLStep (body : Int → (List Int × Int) → Ctl (List Int × Int) ρ) (full : List Nat) (c : Bool) : Prop :=
+  ∀ i, i < full.length → ∀ done rest, body (i : Int) (done ++ rest, (done.length : Int)) =
+    drawn done rest (OneD.sumL (lPat full i)) (b01 (OneD.appendPattern (lPat full i) c))
+
+/-- the shape-independent part of an L-pattern iteration -/
+theorem lstep_core (full : List Nat) (h : allDigits full = true) (i : Nat) (hi : i < full.length) (c : Bool)
+    (done rest : List Int) (k : Int × List Int → Ctl (List Int × Int) ρ)
+    (hk : ∀ t, k t = .next (t.2, (done.length : Int) + t.1)) :
+    (tryC (idx (bytes full) (i : Int)) fun t =>
+      tryC (idxRow (rows refTables.lPatterns) (wrap 8 (t - 48))) fun row =>
+      tryC (Gen.K03w.appendPattern (done ++ rest) (done.length : Int) row c) k) =
+    drawn done rest (OneD.sumL (lPat full i)) (b01 (OneD.appendPattern (lPat full i) c)) := by
+  obtain ⟨h1, h2⟩ := digit_of_all h i hi
+  rw [idx_ofNat _ _ (by simpa [bytes] using hi), bytes_getElem]
+  simp only [tryC_ok]
+  rw [wrap8_digit _ h1 h2, idxRow_rows _ (full[i] - 48) _ rfl (by show full[i] - 48 < 10; omega)]
+  simp only [tryC_ok]
+  rw [ap_at done rest _ _ c rfl]
+  have e : lPat full i = rowAt refTables.lPatterns (full[i] - 48) := by
+    unfold lPat; rw [List.getElem?_eq_getElem hi]; rfl
+  rw [e]
+  unfold drawn
+  split
+  · simp only [tryC_ok, hk, Int.natCast_add]
+  · rfl
+
+when_kernel Gzx.Gen.K03w.ean8Encode in
+theorem ean8_steps (full : List Nat) (h : allDigits full = true) :
+    IsLStep (ρ := List Int × Bool) (Gen.K03w.ean8Encode_body1 (bytes full)) full false ∧
+    IsLStep (ρ := List Int × Bool) (Gen.K03w.ean8Encode_body2 (bytes full)) full true ∧
+    IsLStep (ρ := List Int × Bool) (Gen.K03w.ean8Encode_body3 (bytes full)) full false ∧
+    IsLStep (ρ := List Int × Bool) (Gen.K03w.ean8Encode_body4 (bytes full)) full true := by
+  refine ⟨?_, ?_, ?_, ?_⟩ <;> intro i hi done rest
+  · simp only [Gen.K03w.ean8Encode_body1, tbl_L]
+    exact lstep_core full h i hi false done rest _ (fun t => rfl)
+  · simp only [Gen.K03w.ean8Encode_body2, tbl_L]
+    exact lstep_core full h i hi true done rest _ (fun t => rfl)
+  · simp only [Gen.K03w.ean8Encode_body3, tbl_L]
+    exact lstep_core full h i hi false done rest _ (fun t => rfl)
+  · simp only [Gen.K03w.ean8Encode_body4, tbl_L]
+    exact lstep_core full h i hi true done rest _ (fun t => rfl)
+
+theorem mapM_range'_ok {α : Type} (f : Nat → Res α) (g : Nat → α) : ∀ (k a : Nat),
+    (∀ i, a ≤ i → i < a + k → f i = .ok (g i)) → (List.range' a k).mapM f = .ok ((List.range' a k).map g) := by
+  intro k
+  induction k with
+  | zero => intro a _; rfl
+  | succ k ih =>
+    intro a h
+    rw [List.range'_succ, List.mapM_cons, h a (Nat.le_refl a) (by omega), ih (a + 1) (fun i h1 h2 => h i (by omega) (by omega))]
+    rfl
+
+/-- `draw_loop` with the trip count, start index and position as side conditions (for `rw` against generated code) -/
+theorem draw_at (body : Int → (List Int × Int) → Ctl (List Int × Int) ρ) (pats : Nat → List Nat) (c : Bool)
+    (k a : Nat) (done rest : List Int) (n : Nat) (i0 p : Int)
+    (hb : ∀ i, a ≤ i → i < a + k → ∀ done rest, body (i : Int) (done ++ rest, (done.length : Int)) =
+        drawn done rest (OneD.sumL (pats i)) (b01 (OneD.appendPattern (pats i) c)))
+    (hn : n = k) (hi : i0 = (a : Int)) (hp : p = (done.length : Int)) :
+    loop body 1 n i0 (done ++ rest, p) = drawn done rest (segW pats a k) (b01 (segM pats c a k)) := by
+  subst hn hi hp; exact draw_loop body pats c n a done rest hb
+
+theorem segW_const (pats : Nat → List Nat) (w : Nat) : ∀ (k a : Nat), (∀ i, a ≤ i → i < a + k → OneD.sumL (pats i) = w) →
+    segW pats a k = k * w := by
+  intro k
+  induction k with
+  | zero => intro a _; simp [segW]
+  | succ k ih =>
+    intro a h
+    have := ih (a + 1) (fun i h1 h2 => h i (by omega) (by omega))
+    simp only [segW] at this ⊢
+    rw [List.range'_succ, List.map_cons, List.sum_cons, this, h a (Nat.le_refl a) (by omega), Nat.succ_mul]; omega
+
+/-- what an encoder returns for the model's outcome: modules as 0/1 and no error, or no modules and an error
+    (every failure of the model's encoders is a WriterException; a model panic would be a panic of the code) -/
+def encRes : Res (List Bool) → Res (List Int × Bool)
+  | .ok m => .ok (b01 m, false)
+  | .error .writer => .ok ([], true)
+  | .error e => .error e
+
+/-! ## EAN-8 -/
+
+/-- the modules of a complete 8-digit string -/
+def draw8 (full : List Nat) : List Bool :=
+  OneD.appendPattern refTables.startEnd true ++ segM (lPat full) false 0 4 ++ OneD.appendPattern refTables.middle false ++
+    segM (lPat full) true 4 4 ++ OneD.appendPattern refTables.startEnd true
+
+theorem ean8Modules_of_contents (s full : List Nat) (hc : stdWriterContents 8 s = .ok full) (hl : full.length = 8)
+    (hd : allDigits full = true) : ean8Modules refTables s = .ok (draw8 full) := by
+  have key : ∀ (a : Nat), a + 4 ≤ 8 → (List.range 4).mapM (fun j => do
+      let d ← nth (digitVals full) (j + a); nth refTables.lPatterns d) =
+        .ok ((List.range' 0 4).map (fun j => lPat full (j + a))) := by
+    intro a ha
+    rw [List.range_eq_range', mapM_range'_ok _ (fun j => lPat full (j + a)) 4 0]
+    intro i _ hi
+    have hi' : i + a < full.length := by omega
+    obtain ⟨h1, h2⟩ := digit_of_all hd (i + a) hi'
+    have e1 : nth (digitVals full) (i + a) = .ok (full[i + a] - 48) := by
+      unfold nth digitVals; simp [hi']
+    rw [e1]
+    show nth refTables.lPatterns (full[i + a] - 48) = _
+    rw [nth_rowAt _ _ (by show full[i + a] - 48 < 10; omega)]
+    unfold lPat; rw [List.getElem?_eq_getElem hi']; rfl
+  have k0 : (List.range 4).mapM (fun j => do
+      let d ← nth (digitVals full) j; nth refTables.lPatterns d) = .ok ((List.range' 0 4).map (lPat full)) :=
+    key 0 (by omega)
+  have k4 : (List.range 4).mapM (fun j => do
+      let d ← nth (digitVals full) (j + 4); nth refTables.lPatterns d) = .ok ((List.range' 4 4).map (lPat full)) :=
+    key 4 (by omega)
+  unfold ean8Modules
+  rw [hc]
+  simp only [bind, Except.bind, pure, Except.pure] at k0 k4 ⊢
+  simp only [k0, k4, draw8, segM, List.map_map]
+  rfl
 
 end Gzx.Obligations.K03w
